@@ -30,7 +30,9 @@ def llm_fn_for(kind, version):
     def fn(task, prompt, i):
         t = str(task)
         if "generate_user_intent" in t:
-            return "  greet" if kind == "predef" else "  ask"
+            return "  greet" if kind == "predef" else ("  ask var" if kind == "var" else "  ask")
+        if "generate_value" in t:
+            return f'"LLMTEXT-{rw.digest(prompt)}x"'
         if "generate_next_step" in t:
             return "  bot inform capabilities"
         if "generate_bot_message" in t:
@@ -61,7 +63,7 @@ def explore_world(task):
         res["viol"].append((f"world-rejected:{version}", repr(e), info0))
         return res
     outs = outcomes_v2(order) if v2 else outcomes_v1(order)
-    kinds = ["llm", "predef"] if dialog is True else ["llm"]
+    kinds = (["llm", "predef"] + ([] if v2 else ["var"])) if dialog is True else ["llm"]
     nonce = [0]
     tag = f"{'v2' if v2 else 'v1'}:{'llmlib' if dialog == 'llm' else ('dialog' if dialog else 'nodialog')}"
 
@@ -70,10 +72,10 @@ def explore_world(task):
             res["conversations"] += 1
             return
         for kind in kinds:
-            for oc in (outs if kind == "llm" else [tuple("A" for _ in order)]):
+            for oc in (outs if kind in ("llm", "var") else [tuple("A" for _ in order)]):
                 nonce[0] += 1
                 if v2:
-                    user_text = {"llm": "ask", "predef": "hello"}[kind] if dialog is True else f"U{t}x{nonce[0]}q hello"
+                    user_text = {"llm": "ask", "predef": "hello", "var": "value"}[kind] if dialog is True else f"U{t}x{nonce[0]}q hello"
                 else:
                     user_text = f"U{t}x{nonce[0]}q hello"
                 verdicts = {"in1": "A"}
@@ -104,7 +106,7 @@ def explore_world(task):
                 out_calls = [(a["rail"], a["text"]) for a in turn.actions if a.get("rail") in rw.OUT_RAILS]
                 res["rail_calls"] += len(out_calls)
                 now_disturbed = disturbed
-                if kind == "llm":
+                if kind in ("llm", "var"):
                     res["llm_text_turns"] += 1
                     gen = [c for c in turn.llm_calls if "LLMTEXT-" in str(c.get("answer", ""))]
                     for c in gen:
